@@ -100,3 +100,30 @@ def lemmas_law():
     out.append(("c06:decode-strictly-increasing-reserved", b + ax + [c < nr], DEC(c + 1, nr, base) > DEC(c, nr, base)))
     # the guard of _log_counter is the documented probability: draw < base^-(c - nr)
     return out
+
+
+def lemmas_merge_log(ceiling, tag):
+    """C09 / C18 (log part): consequences of the cell relation of _merge_log* (clause x-cells)"""
+    from .sem import LN
+
+    out = []
+    contract = C.MergeLog16() if ceiling == 65535 else C.MergeLog8()
+    base = z3.Real("base")
+    nr, mc, a, b, s = z3.Ints("num_reserved max_count a b s")
+    F = LFrame("int", {"num_reserved": nr, "max_count": mc, "base": base, "uint_maxval": z3.IntVal(ceiling)}, {})
+    hy = [base > 1, nr >= 0, nr < ceiling, a >= 0, a <= ceiling, b >= 0, b <= ceiling, s >= 0, s <= ceiling, DEC(z3.IntVal(ceiling), nr, base) == z3.ToReal(mc), contract.cell(F, a, b, s)]
+    v, x, cpf, cl = contract.bracket(F, a, b)
+    xa, xb = z3.ToReal(a) - z3.ToReal(nr), z3.ToReal(b) - z3.ToReal(nr)
+    pos = [z3.Implies(a > nr, POW(base, xa) > 1), z3.Implies(b > nr, POW(base, xb) > 1), POW(base, R(0)) == 1]
+    P = "%s:" % tag
+    out.append((P + "c09:exact-sum-in-the-reserved-range", hy + pos + [v <= z3.ToReal(nr)], s == a + b))
+    out.append((P + "c09:maximum-counter-once-the-sum-reaches-max_count", hy + pos + [v >= z3.ToReal(mc), v > z3.ToReal(nr)], s == ceiling))
+    dl, dh = DEC(cl, nr, base), DEC(cl + 1, nr, base)
+    mid = [v > z3.ToReal(nr), v < z3.ToReal(mc)]
+    out.append((P + "c09:ratio-test-is-nearest-of-the-two-bracketing-counters", hy + mid + [dh > dl], s == z3.If(v - dl <= dh - v, cl, cl + 1)))
+    # never below either input: decode is monotone, so a counter above the bracket would decode above v
+    mono_a = z3.Implies(z3.ToReal(a) - z3.ToReal(nr) >= z3.ToReal(cl + 1) - z3.ToReal(nr), POW(base, z3.ToReal(a) - z3.ToReal(nr)) >= POW(base, z3.ToReal(cl + 1) - z3.ToReal(nr)))
+    posb = [DEC(b, nr, base) >= 0]
+    out.append((P + "c09:merged-counter>=input (rounding branch)", hy + mid + pos + [mono_a, DEC(b, nr, base) >= 0, cl + 1 > nr], s >= a))
+    out.append((P + "c18:ceiling-absorbing-under-merge", hy + pos + [a == ceiling, z3.Implies(R(ceiling) - z3.ToReal(nr) > 0, POW(base, R(ceiling) - z3.ToReal(nr)) > 1)], s == ceiling))
+    return out
